@@ -130,4 +130,5 @@ def r6(cx):
 @rule("C03", "C03.R7", "only the last WAL segment can be torn: rotation seals the outgoing segment")
 def r7(cx):
     rule_rotation_seals_segment(cx)
+    rule_one_memtable_per_segment(cx)
     rule_replay_window(cx)
